@@ -208,6 +208,12 @@ func (e *rtEnv) eval(t *Ex, free map[string]*big.Rat, rounds map[string]*Ex) (*b
 			return ratRoundHalfEven(args[0]), nil
 		case "Floor":
 			return ratFloor(args[0]), nil
+		case "Ceil":
+			f := ratFloor(args[0])
+			if f.Cmp(args[0]) != 0 {
+				f.Add(f, big.NewRat(1, 1))
+			}
+			return f, nil
 		case "int", "float":
 			if t.Name == "int" {
 				// truncation toward zero
@@ -218,6 +224,12 @@ func (e *rtEnv) eval(t *Ex, free map[string]*big.Rat, rounds map[string]*Ex) (*b
 				return n.Neg(n), nil
 			}
 			return args[0], nil
+		case "idiv":
+			a, b := args[0], args[1]
+			if !a.IsInt() || !b.IsInt() || b.Sign() == 0 {
+				return nil, fmt.Errorf("idiv on non-integers")
+			}
+			return new(big.Rat).SetInt(new(big.Int).Quo(a.Num(), b.Num())), nil
 		case "imod":
 			a, b := args[0], args[1]
 			if !a.IsInt() || !b.IsInt() || b.Sign() == 0 {
